@@ -215,18 +215,18 @@ inductive EncKind where
   | block
   deriving Repr, Inhabited
 
-structure Enc where
+structure PgEnc where
   colors : ColorSet
   flags : Nat
   kind : EncKind
   deriving Repr, Inhabited
 
-def encCopy (c : ColorFormat) : Enc := ⟨.single c, exactFor c.precision, .copy⟩
+def encCopy (c : ColorFormat) : PgEnc := ⟨.single c, exactFor c.precision, .copy⟩
 /-- `color_convert!(target)` -/
-def encConvert (c : ColorFormat) : Enc :=
+def encConvert (c : ColorFormat) : PgEnc :=
   ⟨.ofPrecision c.precision, exactFor c.precision, .untyped c.bytesPerPixel⟩
-def encUniversal (fl : Nat := 0) : Enc := ⟨.all, fl, .universal⟩
-def encDither (size fl : Nat) : Enc := ⟨.all, fl, .dither size⟩
+def encUniversal (fl : Nat := 0) : PgEnc := ⟨.all, fl, .universal⟩
+def encDither (size fl : Nat) : PgEnc := ⟨.all, fl, .dither size⟩
 
 def rgbaU8 : ColorFormat := ⟨.rgba, .u8⟩
 def rgbU8 : ColorFormat := ⟨.rgb, .u8⟩
@@ -239,8 +239,8 @@ def rgbF32 : ColorFormat := ⟨.rgb, .f32⟩
 def rgbaF32 : ColorFormat := ⟨.rgba, .f32⟩
 
 /-- the encoder lists (in source order) of the formats the C17 tie uses -/
-def encodersOf (name : String) : Option (List Enc) :=
-  let bc (fl : Nat) : List Enc := [⟨.all, fl, .block⟩]
+def encodersOf (name : String) : Option (List PgEnc) :=
+  let bc (fl : Nat) : List PgEnc := [⟨.all, fl, .block⟩]
   match name with
   | "R8G8B8_UNORM" => some [encCopy rgbU8, encConvert rgbU8, encUniversal, encDither 3 fDitherColor]
   | "R8G8B8A8_UNORM" => some [encCopy rgbaU8, encConvert rgbaU8, encUniversal, encDither 4 fDitherAll]
@@ -273,7 +273,7 @@ def encodersOf (name : String) : Option (List Enc) :=
   | _ => none
 
 /-- `EncoderSet::pick_encoder`: the three searches in source order -/
-def pickEncoder (encs : List Enc) (color : ColorFormat) (dith : Dithering) : Option Enc :=
+def pickEncoder (encs : List PgEnc) (color : ColorFormat) (dith : Dithering) : Option PgEnc :=
   let cands := encs.filter (·.colors.contains color)
   match cands.find? (fun e => flagsContain e.flags (exactFor color.precision)) with
   | some e => some e
